@@ -149,3 +149,20 @@ Definition stable_obs (reused : option Z) (before after : obs) : bool :=
     | (i', _) :: _ => Nat.eqb i' (fst p)
     | [] => true
     end) (o_jobs before).
+
+(* ---- histories ---------------------------------------------------------- *)
+
+Fixpoint ops_ok (s : joblist) (ops : list op) : bool :=
+  match ops with
+  | [] => true
+  | o :: ops => op_ok s o && ops_ok (step s o) ops
+  end.
+
+(* Rust panic sites reached by an operation (indexing a vacant slab slot,
+   `set_current_job(index).unwrap()` on an error). *)
+Definition step_panics (s : joblist) (o : op) : bool :=
+  match o with
+  | OInsert pid st => insert_panics s (new_job pid st)
+  | OUpdate pid _ => update_panics s pid
+  | _ => false
+  end.
